@@ -244,6 +244,15 @@ def body_factory(ctx):
                                 accepted_base=Pb, accepted_twin=Pt, max_ll_deviation=max_dev[0])
             ctx.classes["knife-edge acceptance (skipped)"] += 1
         if same:
+            # ---- the nonlinear parameters of the returned rows are the same physical values (the jitter comes back in the
+            # data unit of each run)
+            for nm, un_ in (("P", u.day), ("e", u.one), ("omega", u.rad), ("M0", u.rad), ("s", u.km / u.s)):
+                vb = np.asarray(B["out"][nm].to_value(un_), dtype=float)
+                vt = np.asarray(T["out"][nm].to_value(un_), dtype=float)
+                if vb.shape != vt.shape or not np.allclose(vb, vt, rtol=1e-9, atol=1e-12):
+                    raise Violation("returned %s differs physically between the base run and its unit twin" % nm,
+                                    base=vb[:8], twin=vt[:8], twin_unit=str(T["out"][nm].unit), path=pair["path"],
+                                    twin_library_unit=pair["twin"]["row_units"].get(nm if nm != "e" else "P"))
             # ---- linear draw: (mean, cov) scale with f, f^2 ; returned columns physically equal
             names = c03.linear_names(pb)
             ub = c03.linear_units(pb)
